@@ -191,14 +191,26 @@ def _dict_fallback_rule(repo: Repo, rep: Report) -> None:
     su = conv.functions.get("_structure_union")
     if su is None:
         raise AnalysisError("anchor vanished: _structure_union")
+    if not any(isinstance(c, ast.Call) and (dotted(c.func) or "").endswith("is_dataclass") for c in ast.walk(su.node)):
+        from sa.flatten import flatten as _fl168
+
+        su = _fl168(su)  # the variant classification was moved into a helper
     L = Locals(su.node)
     data_param = su.params[0] if su.params else "data"
     # the flag: a local set to True somewhere and tested in `if <flag> ...: return <payload>`
     flags = set()
     for n in own_nodes(su.node):
         if isinstance(n, ast.If) and any(isinstance(r, ast.Return) and isinstance(r.value, ast.Name) and r.value.id == data_param for r in n.body):
-            flags |= {x.id for x in ast.walk(n.test) if isinstance(x, ast.Name) and any(
-                k == "assign" and isinstance(v, ast.Constant) and v.value is True for k, v, _ in L.defs.get(x.id, []))}
+            def _set_true(name: str, depth: int = 0) -> bool:
+                """some definition (possibly through plain copies `a = b`) binds the name to the literal True"""
+                for k, v, _ in L.defs.get(name, []):
+                    if k == "assign" and isinstance(v, ast.Constant) and v.value is True:
+                        return True
+                    if k == "assign" and isinstance(v, ast.Name) and depth < 3 and _set_true(v.id, depth + 1):
+                        return True
+                return False
+
+            flags |= {x.id for x in ast.walk(n.test) if isinstance(x, ast.Name) and _set_true(x.id)}
     rep.require(len(flags) == 1, f"R16.8: the raw-dict fallback flag of _structure_union was not found ({sorted(flags)})")
     if len(flags) != 1:
         return
